@@ -2,7 +2,7 @@
    time layouts.  This file contains statements only; every proof is
    [exact lemma]. *)
 From V Require Import Model.Flags Proofs.FlagsProofs Gen.Octets Proofs.OctetTables.
-From V Require Import Model.SmppTime Spec.SmppTimeSpec Proofs.SmppTimeProofs.
+From V Require Import Model.SmppTime Spec.SmppTimeSpec Proofs.SmppTimeProofs Proofs.SmppTimeEdge.
 Open Scope N_scope.
 
 (* esm_class: decode then encode is the identity on all 256 octets (model) *)
@@ -191,6 +191,35 @@ Theorem C20_from_noreset_refuted :
   (exists d0 s, valid_rel_time s = true /\ fst (dur_from_gen false d0 s) <> fst (dur_from d0 s)) /\
   (exists v0, fst (time_from_gen false v0 []) <> fst (time_from v0 [])).
 Proof. exact from_noreset_refuted. Qed.
+
+(* ---- which instants C20_time_fmt_parse covers, and the century edge exactly (audit C20-A2).
+   The property says "every instant in 2000-2099 ... every quarter-hour offset within +-12 hours".  The theorem's domain is
+   the set of (instant, offset) whose LOCAL civil time lies in 2000-01-01T00:00:00.0 .. 2099-12-31T23:59:59.9, because the
+   two-digit year of the format is the local year.  The two sets differ only within 12 h of either end of the century:
+     (a) UTC instants of 2000-01-01T00:00 .. 11:59:59.9 seen from an offset -nn that moves the local time into 1999:
+         Time.String prints the year as "-1" - sixteen characters, NOT a valid absolute time of SMPP v5 4.7.23.4 - and
+         Time.From reads that string back to the same value (strconv.ParseInt reads "-1"), see the witnesses;
+     (b) UTC instants of 2099-12-31T12:15 .. 23:59:59.9 seen from an offset +nn that moves the local time into 2100:
+         Time.String prints the year as "100" - SEVENTEEN characters - and Time.From rejects the string.
+   Conversely local times of the century whose UTC instant lies in 1999 / 2100 (up to 12 h outside) ARE covered.
+   INTERPRETATION NOTE: read literally (UTC instants x all offsets) the property is false in case (b) and holds only with
+   a non-standard string in case (a); no implementation can do better, the format has two year digits of LOCAL time.  The
+   property is therefore read over local civil time; the harness treats (a) and (b) as outside the quantifier (advisory
+   model cases) and this theorem states the exact behaviour there. *)
+Theorem C20_time_century_edge : forall t q : Z,
+  -48 <= q <= 48 ->
+  (-864000 <= t + q * 9000 < 0 ->
+     exists s, time_format (t, q) = Ok s /\ List.length s = 16%nat /\ firstn 6 s = [45; 49; 49; 50; 51; 49]%N /\   (* "-11231" *)
+               valid_abs_time s = false) /\
+  (36525 * 864000 <= t + q * 9000 < 36526 * 864000 ->
+     exists s, time_format (t, q) = Ok s /\ List.length s = 17%nat /\ firstn 7 s = [49; 48; 48; 48; 49; 48; 49]%N /\  (* "1000101" *)
+               valid_abs_time s = false /\ time_parse s = Err EDecode).
+Proof. exact time_century_edge. Qed.
+Theorem C20_time_century_edge_witnesses :
+  (exists s, time_format (0, -1) = Ok s /\ time_parse s = Ok (0, -1) /\ valid_abs_time s = false) /\          (* 2000-01-01T00:00Z at -00:15 *)
+  (exists s, time_format (431999, -48) = Ok s /\ time_parse s = Ok (431999, -48) /\ valid_abs_time s = false) /\ (* 2000-01-01T11:59:59.9Z at -12:00 *)
+  (exists s, time_format (36525 * 864000 - 9000, 1) = Ok s /\ time_parse s = Err EDecode).                       (* 2099-12-31T23:45Z at +00:15 *)
+Proof. exact time_century_edge_witnesses. Qed.
 
 (* non-vacuity: "991231235959948-" is valid, is not in the excluded class and denotes
    2100-01-01T11:59:59.9Z at -48 quarter hours; 875043 h 34 min 29 s is a period in range *)
